@@ -37,13 +37,15 @@ type VerifC10Conf struct {
 	// is found by Start and becomes the server identifier.
 	Self     netip.Addr
 	LeaseSec uint32
+	// Disabled: the v4 section is valid but DHCP is switched off.
+	Disabled bool
 }
 
 // VerifC10New runs the real Create on cf.DataDir: v4Create with
 // notify = server.onNotify, v6Create, migrateDB, dbLoad.  ICMP probing is off.
 func VerifC10New(cf VerifC10Conf) (vs *VerifC10Server, err error) {
 	srv, err := Create(&ServerConfig{
-		Enabled: true,
+		Enabled: !cf.Disabled,
 		WorkDir: cf.DataDir,
 		DataDir: cf.DataDir,
 		Conf4: V4ServerConf{
